@@ -10,6 +10,8 @@
 
 namespace sim {
 
+inline size_t bmpPitchCheck(const ref::RBmp& b) { return b.pitch() * b.rows(); }
+
 inline ref::RBmp bmpFromSpec(const Line& l) {
 	ref::RBmp b;
 	Rng r(l.u("seed", 1));
@@ -17,7 +19,7 @@ inline ref::RBmp bmpFromSpec(const Line& l) {
 	if (b.bits != 1 && b.bits != 4 && b.bits != 8) throw std::runtime_error("bad bmp depth in plan");
 	b.w = static_cast<int32_t>(l.u("w", 0));
 	b.h = static_cast<int32_t>(l.i("h", 0));
-	if (b.w < 0 || b.w > 4096 || b.rows() > 4096) throw std::runtime_error("bmp spec too large");
+	if (b.w < 0 || b.w > 20000 || b.rows() > 4096 || bmpPitchCheck(b) > (8u << 20)) throw std::runtime_error("bmp spec too large");
 	b.clrUsed = static_cast<uint32_t>(l.u("used", 0));
 	if (b.clrUsed > (1u << b.bits)) b.clrUsed = 1u << b.bits;
 	size_t npal = b.clrUsed ? b.clrUsed : (1u << b.bits);
@@ -25,6 +27,12 @@ inline ref::RBmp bmpFromSpec(const Line& l) {
 	if (l.u("junkhdr", 0)) { b.imageSize = static_cast<uint32_t>(r.next()); b.xppm = static_cast<uint32_t>(r.next()); b.yppm = static_cast<uint32_t>(r.next()); }
 	for (size_t i = 0; i < npal; ++i) { std::array<uint8_t, 4> c; auto v = prngBytes(r.next(), 4); memcpy(c.data(), v.data(), 4); b.palette.push_back(c); }
 	b.pixels = prngBytes(r.next(), b.pitch() * b.rows()); // padding bytes are arbitrary in the input
+	if (l.u("rowpool", 0) && b.rows() && b.pitch()) {
+		// rows drawn from a small pool: equal rows (also mirrored pairs) are common, as in real pictures with borders and flat areas
+		size_t pool = 1 + static_cast<size_t>(l.u("rowpool") % 3), pitch = b.pitch();
+		std::vector<uint8_t> base = prngBytes(r.next(), pool * pitch);
+		for (size_t y = 0; y < b.rows(); ++y) if (!r.chance(1, 5)) memcpy(b.pixels.data() + y * pitch, base.data() + r.below(pool) * pitch, pitch);
+	}
 	return b;
 }
 
@@ -36,6 +44,11 @@ inline ref::RTileset tilesetFromSpec(const Line& l) {
 	t.h = static_cast<uint32_t>(32 * tiles);
 	for (auto& c : t.palette) { auto v = prngBytes(r.next(), 4); memcpy(c.data(), v.data(), 4); }
 	t.rows = prngBytes(r.next(), 32 * static_cast<size_t>(t.h));
+	if (l.u("rowpool", 0) && t.h) {
+		size_t pool = 1 + static_cast<size_t>(l.u("rowpool") % 3);
+		std::vector<uint8_t> base = prngBytes(r.next(), pool * 32);
+		for (uint32_t y = 0; y < t.h; ++y) if (!r.chance(1, 6)) memcpy(t.rows.data() + static_cast<size_t>(y) * 32, base.data() + r.below(pool) * 32, 32);
+	}
 	return t;
 }
 
